@@ -748,6 +748,9 @@ class Interp:
                 pass
             if kind == 'for':
                 fr.locs[idx_name] = simp(fr.locs[idx_name] + 1)
+            # ghost statements at the end of the iteration (`ghost_step`: name -> expression over the end state)
+            for gname, gsrc in (spec.get('ghost_step') or {}).items():
+                fr.assign(gname, self.spec_eval(gsrc, fr))
             for k, inv in enumerate(spec.get('inv', ())):
                 f = self.spec_eval(inv, fr)
                 ctx.oblige(f'inv-step:{tag}:{k}', 'inv-step', f, inv, s.lineno)
@@ -1195,6 +1198,10 @@ class Interp:
             b = VBytes.lit(b)
         if isinstance(b, VBytes) and isinstance(a, (bytes, bytearray)):
             a = VBytes.lit(a)
+        if isinstance(a, VBytes) and a.kind == 'str' and isinstance(b, str):
+            b = VBytes([Piece('lit', bytes(ord(ch) for ch in b))], 'str') if all(ord(ch) < 256 for ch in b) else b
+        if isinstance(b, VBytes) and b.kind == 'str' and isinstance(a, str):
+            a = VBytes([Piece('lit', bytes(ord(ch) for ch in a))], 'str') if all(ord(ch) < 256 for ch in a) else a
         if isinstance(a, VBytes) and isinstance(b, VBytes):
             return bytes_eq(a, b)
         if isinstance(a, VBytes) or isinstance(b, VBytes):
@@ -1267,6 +1274,18 @@ class Interp:
             return container.contains(item)
         if isinstance(container, VObj) and 'contains!' in container.fields:
             return container.fields['contains!'](self, container, item)
+        if isinstance(container, VBytes) and container.kind == 'str' and isinstance(item, str) and len(item) == 1:
+            # text as a view of code points: some position holds that character
+            n = container.length()
+            code = ord(item)
+            if isinstance(n, int) and n <= 64:
+                return simp(z_or(*[to_z3(container.at(i)) == code for i in range(n)]))
+            k = z3.Int('k!in')
+            if container.is_single_view():
+                # absolute positions (same form as the split axiom and the contract clauses)
+                pc_ = container.pieces[0]
+                return z3.Exists([k], z3.And(k >= to_z3(pc_.off), k < to_z3(pc_.off) + to_z3(n), z3.Select(pc_.arr(), k) == code))
+            return z3.Exists([k], z3.And(k >= 0, k < to_z3(n), to_z3(container.at(k)) == code))
         if isinstance(container, VBytes) and is_int(item):
             n = container.length()
             if isinstance(n, int) and n <= 64:
